@@ -22,7 +22,7 @@ import z3
 
 from . import ops
 from .explore import SymRaise
-from .values import (Sym, SBool, SInt, SReal, SFP, SStr, SBytes, SHex, SOpaque, Unsupported,
+from .values import (Sym, SBool, SInt, SReal, SFP, SStr, SBytes, SHex, SOpaque, Unsupported, SNorm,
                      contains_sym, pytype_of, FP64, RNE, fp_const)
 
 BUILTIN_NAMES = {
@@ -972,6 +972,14 @@ def LOWER():
 
 
 def call_method(ctx, interp, obj, name, args, kwargs):
+    if isinstance(obj, SNorm):
+        if name == "lower" and not args:
+            return SNorm(obj.term, True, obj.strip)
+        if name == "strip" and not args:
+            return SNorm(obj.term, obj.lower, True)
+        if name in ("casefold",) and not args:
+            raise Unsupported("str.casefold on a symbolic str")
+        raise Unsupported("str.%s on a normalised symbolic str" % name)
     if isinstance(obj, (str, SStr)):
         return str_method(ctx, interp, obj, name, args, kwargs)
     if isinstance(obj, list):
@@ -1051,9 +1059,14 @@ def str_method(ctx, interp, s, name, args, kwargs):
                 return SBytes(s.term, "latin-1")
             raise SymRaise(UnicodeEncodeError("latin-1", "?", 0, 1, "ordinal not in range(256)"))
         raise Unsupported("encoding %s" % enc)
-    if name == "lower" and isinstance(s, SStr):
-        ctx.note("stub: str.lower is the uninterpreted function py_str_lower")
-        return SStr(LOWER()(s.term))
+    if name == "lower" and isinstance(s, SStr) and not args:
+        ctx.note("model: str.lower() / str.strip() of a symbolic str are kept as a normal-form wrapper; comparisons with "
+                 "constants become regular constraints on the original string (letter classes computed from CPython)")
+        return SNorm(s.term, lower=True)
+    if name == "strip" and isinstance(s, SStr) and not args:
+        ctx.note("model: str.lower() / str.strip() of a symbolic str are kept as a normal-form wrapper; comparisons with "
+                 "constants become regular constraints on the original string (letter classes computed from CPython)")
+        return SNorm(s.term, strip=True)
     if name in ("startswith", "endswith") and len(args) == 1 and ops.is_strlike(args[0]):
         f = z3.PrefixOf if name == "startswith" else z3.SuffixOf
         return ops.wrap_bool(f(ops.str_term(args[0]), ops.str_term(s)))
